@@ -50,7 +50,9 @@ type EWCase struct {
 	// AlsoUnsafe: UseUnsafe() is passed together with WithReuse (the reuse tensor is still the destination)
 	AlsoUnsafe bool `json:"alsoUnsafe,omitempty"`
 	// SafeOpt: safe mode asked for explicitly with UseSafe() instead of by passing no option
-	SafeOpt  bool    `json:"safeOpt,omitempty"`
+	SafeOpt bool `json:"safeOpt,omitempty"`
+	// Strict: every assertion also inside the region of a recorded finding (only witnesses set this)
+	Strict   bool    `json:"strict,omitempty"`
 	Tol      float64 `json:"-"`
 	scTensor *tensor.Dense
 	scVal    interface{}
@@ -633,7 +635,7 @@ func (c *EWCase) run() string {
 		}
 	}
 	// ---- nothing but the destination was modified
-	if dest != A && !inF17(c) {
+	if dest != A && (!inF17(c) || c.Strict) {
 		if m := A.unchanged("operand a"); m != "" {
 			return desc + ": " + m
 		}
